@@ -64,7 +64,7 @@ impl Case {
 const NAMES: &[&str] = &[
     "a", "b", "A", "ab", "a.", "a.b", ".a", "-", "a-b", "b.a", "a..", "..a", "B.a", "a*", "*", "[", "[a]", "a[", "-a", "aA",
     // leading / inner blanks and tabs (git keeps them: only trailing spaces are trimmed)
-    " a", "a b", "\ta", " lead", "a\tb",
+    " a", "a b", "\ta", " lead", "a\tb", "a\t",
 ];
 
 fn gen_tree(rng: &mut Rng, c: &mut Case, dir: &[u8], depth: usize) {
@@ -211,8 +211,8 @@ fn gen_line(rng: &mut Rng, c: &Case, dir: &[u8], odd: bool) -> String {
     if rng.chance(1, 10) {
         pat.push_str(["  ", " ", "\\ "][rng.below(3)]);
     }
-    // odd: a trailing tab (git keeps it, ripgrep trims it: recorded finding)
-    if odd && rng.chance(1, 8) {
+    // a trailing tab belongs to the pattern (F34, repaired by 5031338: only trailing spaces are insignificant)
+    if rng.chance(1, 14) {
         pat.push_str(["\t", "\t ", " \t"][rng.below(3)]);
     }
     // indentation: for git the blanks / tabs belong to the pattern (an indented `!x` is not a negation,
@@ -526,16 +526,6 @@ fn line_has_prefix_then_dstar(line: &str) -> bool {
     j == b.len() || b[j] == b'/' || (b[j] == b'\\' && j + 1 < b.len() && b[j + 1] == b'/')
 }
 
-/// `add_line` trims every kind of trailing white space (`trim_right`), git only spaces: a line whose content ends
-/// in a tab (or another non-space white-space character) once the trailing spaces are gone
-fn line_has_trailing_nonspace_ws(line: &str) -> bool {
-    if line.starts_with('#') || line.ends_with("\\ ") {
-        return false;
-    }
-    let t = line.trim_end_matches(' ');
-    t.chars().last().map_or(false, |ch| ch.is_whitespace() && ch != ' ')
-}
-
 fn classify(c: &Case) -> &'static str {
     for content in c.ignores.values() {
         for l in content_lines(content) {
@@ -548,13 +538,6 @@ fn classify(c: &Case) -> &'static str {
         for l in content_lines(content) {
             if line_has_prefix_then_dstar(&l) {
                 return "literal-prefix-then-double-star";
-            }
-        }
-    }
-    for content in c.ignores.values() {
-        for l in content_lines(content) {
-            if line_has_trailing_nonspace_ws(&l) {
-                return "trailing-nonspace-whitespace-trimmed";
             }
         }
     }
